@@ -331,7 +331,23 @@ func (c *Ctx) selectArms(fn *ssa.Function, pred func(sel *ssa.Select, st *ssa.Se
 // paramOrSpill: the value is parameter p itself, the cell p was spilled to
 // (its address), or a load of that cell; the cell is written only with p.
 func paramOrSpill(p *ssa.Parameter) func(ssa.Value) bool {
-	cellOfP := func(v ssa.Value) bool {
+	// a cell that only ever holds p: written with p itself, or with a copy of
+	// another such cell (argument temporaries of an inlined helper)
+	var cellOfP func(v ssa.Value, depth int) bool
+	var holdsP func(v ssa.Value, depth int) bool
+	holdsP = func(v ssa.Value, depth int) bool {
+		if v == ssa.Value(p) {
+			return true
+		}
+		if depth > 6 {
+			return false
+		}
+		if ld, ok := v.(*ssa.UnOp); ok && ld.Op == token.MUL {
+			return cellOfP(ld.X, depth+1)
+		}
+		return false
+	}
+	cellOfP = func(v ssa.Value, depth int) bool {
 		al, ok := v.(*ssa.Alloc)
 		if !ok {
 			return false
@@ -341,20 +357,14 @@ func paramOrSpill(p *ssa.Parameter) func(ssa.Value) bool {
 			return false
 		}
 		for _, st := range sts {
-			if st.Val != ssa.Value(p) {
+			if !holdsP(st.Val, depth) {
 				return false
 			}
 		}
 		return true
 	}
 	return func(v ssa.Value) bool {
-		if v == ssa.Value(p) || cellOfP(v) {
-			return true
-		}
-		if ld, ok := v.(*ssa.UnOp); ok {
-			return cellOfP(ld.X)
-		}
-		return false
+		return holdsP(v, 0) || cellOfP(v, 0)
 	}
 }
 
